@@ -29,8 +29,10 @@ import time
 
 from . import bootstrap, pool, findings
 
-EVID_DIR = os.path.join(bootstrap.VERIF, "evidence")
-REPLAY_DIR = os.path.join(bootstrap.VERIF, "replays")
+# VERIF_OUT redirects evidence and replay files (mutation runs against a scratch tree must not overwrite the real evidence)
+_OUT = os.environ.get("VERIF_OUT") or bootstrap.VERIF
+EVID_DIR = os.path.join(_OUT, "evidence")
+REPLAY_DIR = os.path.join(_OUT, "replays")
 
 
 def jdefault(o):
